@@ -18,7 +18,8 @@ RULE = (
     "random dependency-closed subset of the declarations moves into a module imported where the "
     "first moved declaration stood; recursively to depth 3; module paths are plain or dotted "
     "(sub-directories, resolved relative to the importing file; several modules may share a file name "
-    "in different directories).  Oracle: get_fcp(root).to_dict() has "
+    "in different directories; some files are saved with CRLF line endings; a quarter of the schemas declares "
+    "some name twice, which the parser accepts).  Oracle: get_fcp(root).to_dict() has "
     "the same structs, enums, bindings (incl. default ones), services and devices as the single-file "
     "text (compared per kind as multisets; ordered equality with the inlined order is recorded).  "
     "Fault injection into one module of the tree: syntax error, EOF, wrong version, unknown type, "
@@ -123,14 +124,16 @@ def build_tree(r, decls, relpath, depth, counter):
     return t
 
 
-def write_tree(root, tree, style_of=None):
+def write_tree(root, tree, style_of=None, crlf=None):
+    """crlf: set of relpaths saved with CRLF line endings (files are text: same tree expected)."""
     written = {}
     for f in tree.files():
         p = os.path.join(root, f.relpath)
         os.makedirs(os.path.dirname(p), exist_ok=True)
         txt = f.text(style_of(f) if style_of else None)
-        open(p, "w").write(txt)
-        written[f.relpath] = txt
+        with open(p, "w", newline="") as fh:
+            fh.write(txt.replace("\n", "\r\n") if crlf and f.relpath in crlf else txt)
+        written[f.relpath] = txt + ("  <saved with CRLF line endings>" if crlf and f.relpath in crlf else "")
     return written
 
 
@@ -139,7 +142,11 @@ def multiset(lst):
 
 
 def compare_split(run, i, decls, tree, root):
-    files = write_tree(root, tree, lambda f: (S.Style(run.rng("style", i, f.relpath)) if i % 2 else None))
+    rc = run.rng("crlf", i)
+    crlf = {f.relpath for f in tree.files() if i % 5 == 0 and rc.random() < 0.6}
+    if crlf:
+        run.count("splits_with_crlf_files")
+    files = write_tree(root, tree, lambda f: (S.Style(run.rng("style", i, f.relpath)) if i % 2 else None), crlf)
     case = {"files": files, "single_file": S.print_schema(decls)}
     try:
         res, lg = PC.parse_file(os.path.join(root, "main.fcp"))
@@ -154,8 +161,11 @@ def compare_split(run, i, decls, tree, root):
     exp = S.expected_dict(decls)
     for kind in ("structs", "enums", "impls", "services", "devices"):
         if multiset(got.get(kind, [])) != multiset(exp[kind]):
-            missing = [x for x in multiset(exp[kind]) if x not in multiset(got.get(kind, []))]
-            extra = [x for x in multiset(got.get(kind, [])) if x not in multiset(exp[kind])]
+            import collections
+
+            ce, cg = collections.Counter(multiset(exp[kind])), collections.Counter(multiset(got.get(kind, [])))
+            missing = list((ce - cg).elements())
+            extra = list((cg - ce).elements())
             case["kind"] = kind
             case["missing"] = missing[:3]
             case["extra"] = extra[:3]
@@ -274,6 +284,14 @@ def run(run):
                 continue
             r = run.rng("descr", i)
             decls = descr.gen_description(r, ndecl=(3, 10))
+            if i % 4 == 3:
+                # the parser accepts schemas that declare a name twice (the verifier rejects them later):
+                # a split must keep BOTH declarations, like the single file does
+                rd = run.rng("dup", i)
+                cands = [d for d in decls if d["kind"] in ("struct", "enum", "impl", "service", "device")]
+                for d in rd.sample(cands, min(len(cands), rd.randint(1, 2))):
+                    decls.insert(rd.randint(decls.index(d) + 1, len(decls)), copy.deepcopy(d))
+                run.count("schemas_with_duplicate_declarations")
             counter = [0]
             tree = build_tree(run.rng("tree", i), decls, "main.fcp", 0, counter)
             if counter[0] == 0:
@@ -295,7 +313,7 @@ def run(run):
 
 
 def conclude(run):
-    run.require("splits_parsed", "splits_equal", "faults_injected", "faults_reported_well",
+    run.require("splits_parsed", "splits_equal", "faults_injected", "faults_reported_well", "splits_with_crlf_files", "schemas_with_duplicate_declarations",
                 "moved/struct", "moved/enum", "moved/impl", "moved/service", "moved/device")
 
 
